@@ -77,7 +77,10 @@ def _response_coefficient_worker(
 
     """
     old = model.get_parameter_values()[parameter]
+    old_y0 = None
     if y0 is not None:
+        raw_variables = model.get_raw_variables(as_copy=False)
+        old_y0 = {k: raw_variables[k].initial_value for k in y0}
         model.update_variables(y0)
 
     model.update_parameters({parameter: old * (1 + displacement)})
@@ -113,6 +116,10 @@ def _response_coefficient_worker(
         )
         conc_resp *= old / norm.variables.iloc[-1]
         flux_resp *= old / norm.fluxes.iloc[-1]
+
+    # Leave the initial values the way they were as well
+    if old_y0 is not None:
+        model.update_variables(old_y0)
     return conc_resp, flux_resp
 
 
